@@ -515,14 +515,13 @@ func (x *vf02Run) annotate(op *vf02Op) {
 		op.Pre = "x"
 	}
 	if op.Kind == "reopen" {
+		// Init re-counts containers that miss a counter key.  Its recount is known to differ
+		// from the statement when redundant marks or marks of non-physical addresses exist.
 		for _, rc := range x.raw {
-			for _, v := range rc.garbage {
-				if len(v) > 0 {
-					op.Pre = "redundant-marks"
+			for id, v := range rc.garbage {
+				if o := rc.objs[id]; len(v) > 0 || o == nil || !o.phy() {
+					op.Pre = "redundant-or-nonphysical-marks"
 				}
-			}
-			if len(rc.counters) < 7 && op.Pre == "" {
-				op.Pre = "resync"
 			}
 		}
 	}
@@ -643,7 +642,7 @@ func (x *vf02Run) violationCause(cause, counter string, delta int64, what string
 	if strings.HasPrefix(counter, "container-") {
 		group = "container-info"
 	}
-	if strings.Contains(cause, "|") {
+	if strings.Contains(cause, "|") && !strings.HasPrefix(cause, "counter-wrapped") {
 		// no known shape in this step itself: in a container whose counters were already hit
 		// by a known shape the discrepancy is keyed by that shape
 		if t := x.taint[fmt.Sprintf("c%d/%s", x.curCi, group)]; t != "" {
@@ -833,7 +832,7 @@ func (x *vf02Run) compare(raw map[cid.ID]*vf02RawCnr, viaAPI bool) {
 			sumLo[i] += lo
 			sumHi[i] += hi
 			if got > 1<<62 {
-				x.violation(names[i], 1, fmt.Sprintf("counter %s of c%d wrapped: %d", names[i], ci, got), nil)
+				x.violationCause("counter-wrapped|"+names[i], names[i], 1, fmt.Sprintf("counter %s of c%d wrapped: %d", names[i], ci, got), nil)
 			}
 			if e.removed && got != 0 && got != exp[i] {
 				x.noteDrift(fmt.Sprintf("c%d/%s", ci, names[i]), names[i], int64(got)-int64(exp[i]), fmt.Sprintf("stored %s counter of removed container c%d is %d, indexed %d", names[i], ci, got, exp[i]))
@@ -854,8 +853,8 @@ func (x *vf02Run) compare(raw map[cid.ID]*vf02RawCnr, viaAPI bool) {
 			if e.removed {
 				lo, hi, slo, shi = 0, 0, 0, 0
 			}
-			if info.ObjectsNumber > 1<<62 || info.StorageSize > 1<<62 {
-				x.violation("container-info", 1, fmt.Sprintf("container info of c%d wrapped: %+v", ci, info), nil)
+			if info.ObjectsNumber > 1<<62 || info.StorageSize > 1<<62 || rc.counters[11] > 1<<62 || rc.counters[12] > 1<<62 {
+				x.violationCause("counter-wrapped|container-info", "container-info", 1, fmt.Sprintf("container info of c%d wrapped: %+v (gc-counter=%d payload-counter=%d)", ci, info, rc.counters[11], rc.counters[12]), nil)
 			}
 			// ObjectsNumber is derived (phy counter - garbage counter, clipped at 0): a wrong
 			// garbage counter can stay latent behind the clipping and surface at a later,
